@@ -128,6 +128,9 @@ func run(prop, tier, repo, verif string, seed int, onlyKey string) int {
 				return
 			}
 			res.Variants = append(res.Variants, goos)
+			if ns := inlineNotes[repo+"|"+goos]; len(ns) > 0 {
+				res.Notes = append(res.Notes, fmt.Sprintf("normalisation (GOOS=%s): %d call sites of helpers unknown to the reviewed tree were expanded in place before analysis: %s", goos, p.Inlined, strings.Join(ns, "; ")))
+			}
 			if goos == "linux" {
 				for _, r := range p.Roots {
 					res.Packages = append(res.Packages, core.ModName(r.PkgPath))
@@ -149,6 +152,67 @@ func run(prop, tier, repo, verif string, seed int, onlyKey string) int {
 				r.Run(c)
 				if r.Floor > 0 && goos == "linux" {
 					c.Floor(r.Floor)
+				}
+			}
+			// Two views of one program: when helpers were expanded (inline.go), a rule that fails on the expanded view is
+			// decided again on the tree as written; the two are the same program, so a rule holds if it holds on either
+			// view. A violation is reported only when both views have one.
+			if p.Inlined > 0 && os.Getenv("MOSVERIF_ONE_VIEW") == "" {
+				failing := map[string]bool{}
+				for _, o := range c.Obs {
+					if o.Verdict == core.Violation || o.Verdict == core.Undecided {
+						failing[o.Rule] = true
+					}
+				}
+				if len(failing) > 0 {
+					if p0, err0 := loadRaw(repo, goos); err0 == nil {
+						c0 := core.NewCtx(p0, prop, tier)
+						for _, r := range rules.Registry[prop] {
+							if !failing[r.ID] || (goos != "linux" && !r.AllVariants) {
+								continue
+							}
+							c0.SetRule(r.ID)
+							r.Run(c0)
+							if r.Floor > 0 && goos == "linux" {
+								c0.Floor(r.Floor)
+							}
+						}
+						bad0 := map[string]bool{}
+						for _, o := range c0.Obs {
+							if o.Verdict == core.Violation || o.Verdict == core.Undecided {
+								bad0[o.Rule] = true
+							}
+						}
+						var kept []core.Obligation
+						var switched []string
+						for _, o := range c.Obs {
+							if failing[o.Rule] && !bad0[o.Rule] {
+								continue
+							}
+							kept = append(kept, o)
+						}
+						for id := range failing {
+							if !bad0[id] {
+								switched = append(switched, id)
+								c.RuleCount[id] = 0
+							}
+						}
+						for _, o := range c0.Obs {
+							if failing[o.Rule] && !bad0[o.Rule] {
+								kept = append(kept, o)
+								c.RuleCount[o.Rule]++
+							}
+						}
+						c.Obs = kept
+						if len(switched) > 0 {
+							sort.Strings(switched)
+							c.Notes = append(c.Notes, fmt.Sprintf("two views (GOOS=%s): %s decided on the tree as written (the view with helpers expanded did not match the rule's shape; both views are the same program)", goos, strings.Join(switched, " ")))
+						}
+						for a := range c0.Assumptions {
+							c.Assumptions[a] = true
+						}
+						core.NewCtx(p, prop, tier) // restore the per-process tables for p
+					}
 				}
 			}
 			if dump := os.Getenv("MOSVERIF_DUMP"); dump != "" {
@@ -263,14 +327,36 @@ func sensitivity(prop, repo, verif string) []string {
 var progCache = map[string]*core.Prog{}
 
 // loadCached loads a build variant once per process (multi-property runs share the load).
+var inlineNotes = map[string][]string{}
+
+// loadRaw loads the tree as written (no helper expansion).
+func loadRaw(repo, goos string) (*core.Prog, error) {
+	k := repo + "|" + goos + "|raw"
+	if p, ok := progCache[k]; ok {
+		return p, nil
+	}
+	core.DisableInline = true
+	defer func() { core.DisableInline = os.Getenv("MOSVERIF_NO_INLINE") != "" }()
+	p, err := core.Load(repo, goos)
+	if err == nil {
+		progCache[k] = p
+	}
+	return p, err
+}
+
 func loadCached(repo, goos string) (*core.Prog, error) {
 	k := repo + "|" + goos
 	if p, ok := progCache[k]; ok {
 		return p, nil
 	}
+	if os.Getenv("MOSVERIF_NO_INLINE") != "" {
+		core.DisableInline = true
+	}
+	logStart := len(core.InlineLog)
 	p, err := core.Load(repo, goos)
 	if err == nil {
 		progCache[k] = p
+		inlineNotes[k] = append([]string{}, core.InlineLog[logStart:]...)
 	}
 	return p, err
 }
